@@ -393,7 +393,7 @@ theorem ifelse_getElem {choice l other : List Int} {n : Nat} (h1 : choice.length
     have a1 : i < choice.length := by omega
     have a2 : i < l.length := by omega
     have a3 : i < other.length := by omega
-    simp [List.getElem_zip, getElem!_pos, a1, a2, a3]
+    simp [List.getElem_zip, a1, a2, a3]
 
 /-- **`a.ifelse(choice, other)`** on a WRITABLE array (see `ifelse_readonly_quirk` for read-only ones):
     a fresh array `[a[i] if choice[i] else other[i]]` -/
